@@ -198,8 +198,13 @@ def gen_basic(rng, op, malformed=False):
     if op == 'unfold_dim':
         s = rshape(rng, 1, 3, 5)
         dmn = rng.randrange(-len(s), len(s))
-        size = rng.randint(1, s[dmn % len(s)])
-        step = rng.randint(1, 3)
+        size = step = None
+        if rng.chance(.6):        # a long axis: many windows, windows that overlap their second and third neighbours (size > 2 * step)
+            s = list(s); s[dmn % len(s)] = rng.randint(5, 10); s = tuple(s)
+            if rng.chance(.6):
+                step = rng.randint(1, 2); size = rng.randint(2 * step + 1, min(s[dmn % len(s)], 3 * step + 2))
+        size = size or rng.randint(1, s[dmn % len(s)])
+        step = step or rng.randint(1, 3)
         if malformed: size = s[dmn % len(s)] + 1
         return [L(s)], [dmn, size, step]
     raise KeyError(op)
